@@ -671,3 +671,5 @@ func le64(v uint64) []byte {
 	binary.LittleEndian.PutUint64(b[:], v)
 	return b[:]
 }
+
+func bigInt(x int64) *big.Int { return big.NewInt(x) }
